@@ -28,6 +28,7 @@ fn explain(error_reference: &str) -> String {
         "file_and_format" => "Expected a filename and format string",
         "attribute_and_value" => "Expected an attribute name and a value to compare",
         "invalid_comparison" => "Invalid comparison operator",
+        "missing_argument" => "Missing argument",
         "invalid_format_specifier" => "Found an invalid format specifier",
         "invalid_permission_format" => "Invalid permission format",
         "invalid_size_specifier" => "Invalid size specifier",
@@ -151,6 +152,12 @@ impl ParserError {
             (Some(t), _, _, None) => SyntaxError::InvalidTestUnknown(t, next),
             (_, Some(a), _, Some(d)) => SyntaxError::InvalidActionArgument(a, next, explain(&d)),
             (_, _, Some(g), Some(d)) => SyntaxError::InvalidGlobalArgument(g, next, explain(&d)),
+            (_, Some(a), _, None) if !a.is_empty() => {
+                SyntaxError::InvalidActionArgument(a, next, explain("missing_argument"))
+            }
+            (_, _, Some(g), None) if !g.is_empty() => {
+                SyntaxError::InvalidGlobalArgument(g, next, explain("missing_argument"))
+            }
             _ => SyntaxError::InvalidToken(next),
         }
         .into()
